@@ -203,3 +203,51 @@ def run_case(ctx, index):
 def setup(ctx):
     from biom.exception import DisjointIDError
     ctx.DisjointIDError = DisjointIDError
+
+
+def stress(ctx):
+    """Scale: more than 128 / 256 operands."""
+    import biom
+    r = ctx.rng('stress')
+    for k in (130, 300):
+        for axis in ('sample', 'observation'):
+            inv = 'observation' if axis == 'sample' else 'sample'
+            tabs, specs = [], []
+            for j in range(k):
+                ax = ['T%04d.a' % j, 'T%04d.b' % j][:r.randint(1, 2)]
+                oth = r.sample(['u1', 'u2', 'u3'], r.randint(1, 3))
+                V = np.array([[float(r.randint(0, 5)) for _ in oth]
+                              for _ in ax])
+                md = [{'op': j}] * len(ax) if j % 3 else None
+                if axis == 'observation':
+                    sp = gen.Spec(ax, oth, V, md, None)
+                else:
+                    sp = gen.Spec(oth, ax, V.T, None, md)
+                specs.append(sp)
+                tabs.append(gen.build(ctx.biom, sp, 'dense'))
+            for entry in ('biom', 'table'):
+                res = biom.concat(list(tabs), axis=axis) if entry == 'biom' \
+                    else tabs[0].concat(list(tabs[1:]), axis=axis)
+                s_ = snap.snap(res)
+                desc = {'scale': '%d operands via %s on %s' % (k, entry,
+                                                               axis)}
+                exp_ax = [i for sp in specs for i in sp.ids(axis)]
+                if s_.ids(axis) != exp_ax:
+                    missing = [i for i in exp_ax if i not in s_.ids(axis)]
+                    raise Violation('C10/concat-axis-ids', 'scale: ids '
+                                    'missing %r; %r' % (missing[:6], desc))
+                R = s_.D if axis == 'observation' else s_.D.T
+                row = 0
+                for sp in specs:
+                    V = sp.D if axis == 'observation' else sp.D.T
+                    for a in range(len(sp.ids(axis))):
+                        for b, o in enumerate(s_.ids(inv)):
+                            e = V[a, sp.ids(inv).index(o)] \
+                                if o in sp.ids(inv) else 0.0
+                            if R[row, b] != e:
+                                raise Violation('C10/cell-value', 'scale: '
+                                                '%r; %r' % (sp.ids(axis)[a],
+                                                            desc))
+                        row += 1
+                ctx.count('scale_many_operands')
+                ctx.case(desc, True)
